@@ -12,8 +12,9 @@
 // overflow, an invalid shift … into `ub(<kind>)` for the line.
 //
 // The operations are split over three files by clause of the property:
-//   c02_containers.inc   vec.* str.* set.* bits.*   containers (histories; `new` starts one)
-//   c02_ranges.inc       sv.* alg.* span.*          views, algorithms, spans
+//   c02_containers.inc   vec.* set.* bits.*         containers (histories; `<x>.new` starts one)
+//   c02_strings.inc      str.* sv.*                 inplace_string (histories), string_view
+//   c02_ranges.inc       alg.* span.*               algorithms, spans / mdspan
 //   c02_text.inc         cc.* cs.* num.* chr.*      character conversion, C strings, bit/numeric helpers, calendar kernels
 #include "c02_guard.hpp"
 
@@ -21,17 +22,19 @@ using proto::Line;
 
 // each returns true when the operation belongs to it; `out` = "impl\tstd"
 static bool step_containers(Line const& l, std::string& out);
+static bool step_strings(Line const& l, std::string& out);
 static bool step_ranges(Line const& l, std::string& out);
 static bool step_text(Line const& l, std::string& out);
 
 #include "c02_containers.inc"
+#include "c02_strings.inc"
 #include "c02_ranges.inc"
 #include "c02_text.inc"
 
 static std::string step(Line const& l)
 {
     std::string out;
-    if (step_containers(l, out) || step_ranges(l, out) || step_text(l, out)) return out;
+    if (step_containers(l, out) || step_strings(l, out) || step_ranges(l, out) || step_text(l, out)) return out;
     return "bad-op\tbad-op";
 }
 
